@@ -32,6 +32,7 @@ type c04Tpl struct {
 	hasElse bool
 	els     []*c04Tpl
 	gap     string // what stands between the loop and its v-else sibling
+	echo    []string // print: variables bound once more as attributes of their own name (:x="x"), unobserved
 }
 
 func c04Coq(ts []*c04Tpl) string {
@@ -82,6 +83,9 @@ func c04Src(ts []*c04Tpl) string {
 					attrs += fmt.Sprintf(` :data-a%d="%s"`, k, v.path)
 					k++
 				}
+			}
+			for _, n := range t.echo {
+				attrs += fmt.Sprintf(` :%s="%s"`, n, n)
 			}
 			fmt.Fprintf(&sb, `<i data-m="%d"%s>%s</i>`, t.id, attrs, strings.Join(texts, "|"))
 			continue
@@ -199,6 +203,13 @@ func (g *c04Gen) printNode(scope map[string]string) *c04Tpl {
 	}
 	if len(t.views) == 0 {
 		t.views = append(t.views, c04View{kind: "text", path: "zzundefined"})
+	}
+	// an attribute that happens to be named like a variable in scope (<option :value="value">): binding it
+	// is a read, never a write to any scope
+	for _, n := range names {
+		if k := scope[n]; (k == "str" || k == "int") && n == strings.ToLower(n) && g.r.Intn(3) == 0 {
+			t.echo = append(t.echo, n)
+		}
 	}
 	if g.r.Intn(4) == 0 { // the same probe through an included component with bound props
 		var ps []c04View
